@@ -361,3 +361,99 @@ fn expected_rules(name: &str) -> Vec<Rule> {
         _ => vec![],
     }
 }
+
+/// C04 live: the real `Core::listen` (TCP + QUIC, on 127.0.0.1 and on the dual-stack `[::]`) with a
+/// rules engine; TCP clients send a real ClientHello carrying a chosen random and watch for the
+/// ServerHello, QUIC clients complete their handshake (the random is whatever quiche drew) and ask for
+/// a health check. Admitted or dropped, compared with the rules model for the peer's actual address.
+pub fn run_live(ctx: &mut Ctx) {
+    use crate::c02h3::LiveEndpoint;
+    use crate::h3cli::H3Client;
+    use std::io::{Read, Write};
+    use std::time::Duration;
+    quiet_panics();
+    let r = |c: Option<&str>, p: Option<&str>, a: RuleAction| Rule { cidr: c.map(String::from), client_random_prefix: p.map(String::from), action: a };
+    use RuleAction::{Allow, Deny};
+    let mut lists: Vec<Vec<Rule>> = vec![
+        vec![r(Some("127.0.0.0/8"), None, Deny)],
+        vec![r(Some("10.0.0.0/8"), None, Deny)],
+        vec![r(Some("::ffff:127.0.0.1/128"), None, Deny)],
+        vec![r(Some("::1/128"), None, Deny), r(Some("0.0.0.0/8"), None, Deny)],
+        vec![r(None, Some("00/80"), Deny)],
+        vec![r(Some("127.0.0.1/32"), Some("80/80"), Allow), r(None, None, Deny)],
+        vec![r(Some("10.0.0.0/8"), Some("00/00"), Deny), r(None, Some("00/00"), Allow), r(None, None, Deny)],
+        vec![r(None, Some("0/f"), Deny), r(Some("127.0.0.0/8"), Some("c0/c0"), Deny)],
+        vec![r(None, Some("zz"), Deny), r(Some("banana"), None, Deny), r(Some("127.0.0.1/32"), Some("40/c0"), Deny)],
+    ];
+    if ctx.thorough() {
+        let cidrs = [None, Some("127.0.0.0/8"), Some("127.0.0.1/32"), Some("::ffff:127.0.0.0/104"), Some("10.0.0.0/8"), Some("::/0"), Some("0.0.0.0/0")];
+        let pats = [None, Some("00/80"), Some("80/80"), Some("c0/c0"), Some("00/00"), Some("a"), Some("0000/c000")];
+        for _ in 0..16 {
+            let n = ctx.rng.range(1, 4);
+            lists.push((0..n).map(|_| r(*ctx.rng.pick(&cidrs), *ctx.rng.pick(&pats), if ctx.rng.chance(1, 2) { Allow } else { Deny })).collect());
+        }
+    }
+    let peer: Option<IpAddr> = Some("127.0.0.1".parse().unwrap());
+    for (li, rules) in lists.iter().enumerate() {
+        let dual = li % 2 == 1;
+        let rules2 = rules.clone();
+        let Some(ep) = LiveEndpoint::start_on(dual, move |addr| {
+            let settings = Settings::builder()
+                .listen_address(addr)
+                .unwrap()
+                .listen_protocols(ListenProtocolSettings {
+                    http1: Some(Http1Settings::builder().build()),
+                    http2: Some(trusttunnel::settings::Http2Settings::builder().build()),
+                    quic: Some(trusttunnel::settings::QuicSettings::builder().build()),
+                })
+                .tls_handshake_timeout(Duration::from_secs(2))
+                .clients(vec![trusttunnel::authentication::registry_based::Client { username: "u".into(), password: "p".into() }])
+                .rules_engine(RulesEngine::from_config(RulesConfig { rule: rules2.clone() }))
+                .build()
+                .unwrap();
+            let hosts = TlsHostsSettings::builder()
+                .main_hosts(vec![TlsHostInfo { hostname: "localhost".into(), cert_chain_path: FIXTURE_PEM.into(), private_key_path: FIXTURE_PEM.into(), allowed_sni: vec![] }])
+                .build()
+                .unwrap();
+            Core::new(settings, None, hosts, Shutdown::new()).unwrap()
+        }) else {
+            ctx.notes.push(format!("c04live: the endpoint's listener did not come up ({}); skipped", if dual { "dual-stack [::]" } else { "127.0.0.1" }));
+            continue;
+        };
+        let rt = rules_tokens(rules);
+        // ---- TCP: a chosen random in a real ClientHello ----
+        let mut randoms: Vec<Vec<u8>> = vec![vec![0x00; 32], vec![0xff; 32], vec![0x7f; 32], vec![0x80; 32], vec![0x40; 32], vec![0xc0; 32], vec![0x0f; 32]];
+        randoms.push(ctx.rng.bytes(32));
+        for rnd in &randoms {
+            let mut hello = client_hello("localhost");
+            hello[11..43].copy_from_slice(rnd);
+            let Ok(mut s) = std::net::TcpStream::connect(ep.addr) else { continue };
+            let _ = s.set_read_timeout(Some(Duration::from_millis(1500)));
+            let _ = s.write_all(&hello);
+            let mut buf = [0u8; 4096];
+            let ans = match s.read(&mut buf) {
+                Ok(0) | Err(_) => "deny",
+                Ok(_) if buf[0] == 0x16 => "allow",
+                Ok(_) => "other",
+            };
+            ctx.emit(&format!("c04 eval 1 {} {} {}", ip_token(&peer), hex(rnd), rt), ans);
+            ctx.stat(&format!("live_tcp_{}{}", ans, if dual { "_dual_stack" } else { "" }));
+        }
+        // ---- QUIC: the random of the handshake ----
+        for _ in 0..(if ctx.thorough() { 10 } else { 5 }) {
+            let (ans, rnd) = match H3Client::connect(ep.addr, Some("localhost"), &[b"h3"], 1 << 20, Duration::from_millis(1500)) {
+                Err(_) => continue, // the QUIC handshake itself is not subject to the rules
+                Ok(mut cl) => {
+                    let rnd = cl.client_random();
+                    let id = cl.request("CONNECT", None, "_check", None, &[], false);
+                    cl.wait(Duration::from_millis(700), |c| id.and_then(|i| c.streams.get(&i)).map(|s| s.status.is_some()).unwrap_or(false));
+                    let served = id.map(|i| cl.stream(i).status == Some(200)).unwrap_or(false);
+                    cl.close();
+                    (if served { "allow" } else { "deny" }, rnd)
+                }
+            };
+            ctx.emit(&format!("c04 eval 1 {} {} {}", ip_token(&peer), hex(&rnd), rt), ans);
+            ctx.stat(&format!("live_quic_{}{}", ans, if dual { "_dual_stack" } else { "" }));
+        }
+    }
+}
